@@ -172,6 +172,19 @@ CHECKS["C03"] = dict(
          "pypi delegates to the third-party `packaging` library and has no reference here. Known finding: alpm follows msys2's vercmp, which differs from pacman where separator runs do not line up. "
          "Three defects found by this check were repaired by fix: commits (gentoo first component, openssl -pre, maven nested empty lists).")
 
+CHECKS["C06"] = dict(
+    text="Theorem for every version type with a total preorder and native expressions with any number of alternatives: for the flat fragment of the property (ascending, disjoint alternatives that are "
+         "one exact version or one interval with inclusive, exclusive or open ends and exclusions inside), the constraints every from_native emits (to_constraints) denote, in C04's interval-set "
+         "meaning, exactly the versions some alternative accepts (native_conversion_exact: one-alternative lemma, a union lemma for constraint lists placed one after the other, induction over the "
+         "alternatives). Shorthand theorems on the semver model for all release versions: npm caret (left-most non-zero element), tilde and M.m.x (same minor), M.x (same major), nginx 'version+' "
+         "(stable branch bounded by the next minor, mainline unbounded), hyphen ranges. On the implementation, for maven, nuget, npm, conan, gem, pypi, deb, rpm, nginx and openssl: random fragment "
+         "expressions over a ladder of 64 release versions rendered with spelling variants; the result must validate, every ladder version is probed against the extracted native rule, and the emitted "
+         "constraints are compared with the conversion model of the theorem; shorthands (^, ~, x, ~>, +) are probed around every bound against the extracted rules.",
+    ref="6 (C06)", technique="Coq proof (interval-set union lemma + induction over alternatives; arithmetic on release triples by lia) + conversion-model correspondence and exhaustive ladder probing",
+    note="PARTIAL: well-formedness of the converted range is checked on the implementation, not proved; the parsers of the native notations are not modelled (the emitted constraints are compared "
+         "with the conversion model instead); conan and gem shorthands are evaluated against the rules on numeric triples without a theorem on their own version models. Assumes C01/C02 of the scheme. "
+         "Known findings: deprecated Debian '<' '>' read as strict; bare Maven/NuGet version gives '=None'; alternatives meeting at one version give an ill-formed range.")
+
 PENDING = {}
 
 
